@@ -255,6 +255,34 @@ def getOps (ops : List OpMethod) (keys without : List Name) : Option (List OpMet
   let sel ← keys.mapM (allLookup ops)
   pure (sel.flatten.filter fun o => !(ign.flatten.contains o))
 
+/-- a key of the dictionary `OpMethod._all`: a string, a function of the `operator` module (named by its
+    dunder attribute) or an int -/
+inductive OpKey where
+  | str (s : Name)
+  | func (f : Name)
+  | int (n : Nat)
+  deriving DecidableEq, Repr
+
+/-- ALL keys under which `_insert` files the entry:
+    `keys = ["all", self.symbol, self.name, self.dname, self.func, self.arity, str(self.arity)]`, plus `"r"` -/
+def OpMethod.keysK (o : OpMethod) : List OpKey :=
+  [.str n!"all", .str o.symbol, .str o.name, .str o.dname, .func o.func, .int o.arity,
+   .str [Char.ofNat (48 + o.arity)]] ++ (if o.rev then [.str n!"r"] else [])
+
+/-- `cls._all[key]` (insertion order); `none` = KeyError -/
+def lookupK (ops : List OpMethod) (key : OpKey) : Option (List OpMethod) :=
+  match ops.filter (fun o => o.keysK.contains key) with
+  | [] => none
+  | l => some l
+
+/-- `list(OpMethod.get(key, without))` for any list of queries (strings already split at white space):
+    every match of every key, in the order asked for (an entry matched twice comes twice), minus the
+    entries matched by `without`; `none` = ValueError (unknown operator / "div") -/
+def getOpsK (ops : List OpMethod) (keys without : List OpKey) : Option (List OpMethod) := do
+  let ign ← without.mapM (lookupK ops)
+  let sel ← keys.mapM (lookupK ops)
+  pure (sel.flatten.filter fun o => !(ign.flatten.contains o))
+
 inductive InstallErr where
   | valueError                 -- unknown operator in `__operators__` / `__without__`
   | keyError                   -- no entry `(rev, arity)` in the builder dict
